@@ -242,7 +242,11 @@ func (w *world) candidates(r *coqfmt.Rng, p policy, allowNew bool) []cand {
 			v := w.genValue(r, p)
 			// a third of the reports reuse the source's buffer: mutated in place, same pointer reported again
 			start(&opT{K: "offer", InPlace: !v.Bad && r.Chance(1, 3), Msg: &msgT{K: "update", Src: src, V: v, Blocking: r.Intn(10) < p.blocking}}, p.report)
-			start(&opT{K: "offer", Msg: &msgT{K: "err", Src: src}}, p.reportErr)
+			ev := ""
+			if r.Chance(1, 3) {
+				ev = []string{"nil", "panic", "nilptr"}[r.Intn(3)]
+			}
+			start(&opT{K: "offer", Msg: &msgT{K: "err", Src: src, EV: ev}}, p.reportErr)
 			start(&opT{K: "offer", Msg: &msgT{K: "done", Src: src}}, p.done)
 		}
 	}
@@ -540,6 +544,20 @@ var scripts = map[string]script{
 		w.drainMon()
 		w.drainCb()
 	}},
+	// errors of unusual shape handed to ReportError (nil, panicking Error method, nil pointer)
+	"srcerr-odd-errors": {oneWatcher, func(w *world) {
+		for _, ev := range []string{"nil", "panic", "nilptr", ""} {
+			e := w.startOp(&opT{K: "offer", Msg: &msgT{K: "err", Src: 0, EV: ev}})
+			w.do(label{K: "recv", Src: "offer", Tid: e})
+			w.drainMon()
+			w.drainCb()
+		}
+		o := w.startOp(&opT{K: "offer", Msg: &msgT{K: "update", Src: 0, V: svJSON{C: ip(&[]int{4}[0])}, Blocking: true}})
+		w.do(label{K: "recv", Src: "offer", Tid: o})
+		w.drainMon()
+		w.finish(o)
+		w.drainCb()
+	}},
 	// finding 6: EnableVerification without a monitor
 	"enable-nomon": {setupT{Delay: true, Def: [3]int{1, 5, 0}, Watching: []bool{false}, Inits: []svJSON{{}}}, func(w *world) {
 		w.startOp(&opT{K: "enable"})
@@ -829,7 +847,7 @@ func init() {
 
 var scriptOrder = []string{"late-register", "double-unregister", "srcerr-delay-nosuppress", "srcerr-after-enable-suppress",
 	"enable-nomon", "enable-nomon-invalid", "race-register-after-store", "race-catchup", "abandoned-caller",
-	"blocked-callback", "overflow", "overflow-then-register", "same-buffer", "cancel-during-verify", "no-handlers", "rejections", "enable-retry", "blank-setsource"}
+	"blocked-callback", "overflow", "overflow-then-register", "same-buffer", "cancel-during-verify", "no-handlers", "srcerr-odd-errors", "rejections", "enable-retry", "blank-setsource"}
 
 func init() {
 	for _, n := range scriptOrder {
